@@ -8,6 +8,7 @@ mod queue;
 mod seqds;
 mod simcore;
 mod taskeng;
+mod taskset;
 mod timecell;
 
 fn main() {
@@ -25,6 +26,7 @@ fn main() {
         "chan" => chan::main(&args[2..]),
         "pool" => pool::main(&args[2..]),
         "task" => taskeng::main(&args[2..]),
+        "taskset" => taskset::main(&args[2..]),
         "timecell" => timecell::main(&args[2..]),
         other => {
             eprintln!("unknown engine {}", other);
